@@ -16,6 +16,69 @@ theorem frameSize_append (a b : List (String × VType)) : frameSize (a ++ b) = f
   | nil => simp [frameSize]
   | cons x r ih => obtain ⟨n, t⟩ := x; simp [frameSize, ih]; omega
 
+theorem frameSize_params (ps : List (String × VType)) :
+    frameSize (ps.map (fun p => (p.1, paramSlot p.2))) = ps.length := by
+  induction ps with
+  | nil => rfl
+  | cons p r ih =>
+    simp only [List.map_cons, frameSize, List.length_cons]
+    rw [ih]
+    simp only [paramSlot, VType.size]
+    omega
+
+theorem varIdx_append_left (a b : List (String × VType)) (v : String) (k : Nat) (h : varIdx a v = some k) :
+    varIdx (a ++ b) v = some k := by
+  induction a generalizing k with
+  | nil => simp [varIdx] at h
+  | cons p r ih =>
+    obtain ⟨n, t⟩ := p
+    simp only [List.cons_append, varIdx] at h ⊢
+    by_cases hn : n = v
+    · simpa [hn] using h
+    · simp only [hn, if_false] at h ⊢
+      cases hr : varIdx r v with
+      | none => simp [hr] at h
+      | some k' =>
+        rw [hr] at h
+        rw [ih k' hr]
+        exact h
+
+/-- a name that is not declared in the first list is found in the second, after the storage of the first -/
+theorem varIdx_append_right (a b : List (String × VType)) (v : String) (h : ∀ p ∈ a, p.1 ≠ v) :
+    varIdx (a ++ b) v = (varIdx b v).map (· + frameSize a) := by
+  induction a with
+  | nil => simp [frameSize]
+  | cons p r ih =>
+    obtain ⟨n, t⟩ := p
+    have hn : n ≠ v := h (n, t) (by simp)
+    simp only [List.cons_append, varIdx, hn, if_false, frameSize]
+    rw [ih (fun q hq => h q (by simp [hq]))]
+    cases varIdx b v with
+    | none => rfl
+    | some x => simp only [Option.map_some]; congr 1; omega
+
+/-- with distinct parameter names the k-th parameter sits in cell k -/
+theorem varIdx_param_pos (ps : List (String × VType)) (k : Nat) (hk : k < ps.length)
+    (hnd : (ps.map (·.1)).Nodup) :
+    varIdx (ps.map (fun p => (p.1, paramSlot p.2))) (ps[k]).1 = some k := by
+  induction ps generalizing k with
+  | nil => simp at hk
+  | cons p r ih =>
+    cases k with
+    | zero => simp [varIdx]
+    | succ k =>
+      have hk' : k < r.length := by simpa using hk
+      simp only [List.map_cons, List.nodup_cons] at hnd
+      have hne : p.1 ≠ (r[k]).1 := by
+        intro h
+        apply hnd.1
+        rw [h]
+        exact List.mem_map.mpr ⟨r[k], List.getElem_mem _, rfl⟩
+      have ih' := ih k hk' hnd.2
+      simp only [List.map_cons, List.getElem_cons_succ, varIdx, hne, if_false]
+      rw [ih']
+      simp [paramSlot, VType.size]
+
 theorem nodup_before (l1 : List (String × VType)) (x : String × VType) (l2 : List (String × VType))
     (h : ((l1 ++ x :: l2).map (·.1)).Nodup) : ∀ y ∈ l1, y.1 ≠ x.1 := by
   induction l1 with
